@@ -218,6 +218,10 @@ func (c *c16sim) readBack(f *c16cache, leaderID string, leaderKey uint64, when s
 			c.r.Settle()
 		} else {
 			rd.Close()
+			// a reader at the left end that is not a log reader is the snapshot taken there; a log segment that starts
+			// at the snapshot's offset would have been preferred. The range claims bytes behind the snapshot (right >
+			// left) whose first part the cache therefore does not hold.
+			c.setViolation("C16.gap", "the follower's log does not start where its snapshot ends", "%s: id %s reports range [%d,%d] and a snapshot at %d, but no log segment starts at %d: the bytes between the snapshot and the first cached log segment are missing", when, tailID(id), left, right, left, left)
 		}
 	}
 	_ = leaderID
@@ -235,6 +239,7 @@ func runC16(r *Run, stratum string) *Violation {
 	backend, scen := parts[0], parts[1]
 	hub := simgrpc.NewHub()
 	hub.Window = 1 + g.Choose("window", 8)
+	hub.GateRequests = g.Choose("gaterequests", 2) == 0 // requests travel too: the leader may change before one arrives
 	simgrpc.SetHub(hub)
 	defer simgrpc.SetHub(nil)
 	fs := simfs.New()
@@ -262,6 +267,9 @@ func runC16(r *Run, stratum string) *Violation {
 	F := &c16cache{name: "follower", ch: mk(c16BaseF, "follower"), id: idL, key: 701}
 
 	off := int64(1000 + g.Choose("off", 5000))
+	if scen != "collected" && g.Choose("offzero", 4) == 0 {
+		off = 0 // the first full sync of a fresh master is taken at replication offset 0
+	}
 	far := scen == "collected" && g.Choose("far", 3) == 0
 	if far {
 		// the follower is more than 10 MiB behind (offsets are just numbers): the branch of preSync that gives the
@@ -277,7 +285,11 @@ func runC16(r *Run, stratum string) *Violation {
 	switch scen {
 	case "prefix":
 		cut := int64(1 + g.Choose("prefixlen", int(logLen)))
-		c.fill(F, g.Choose("fsnap", 2) == 0, off, snapN, cut)
+		fsnap := g.Choose("fsnap", 2) == 0
+		if fsnap && g.Choose("snaponly", 3) == 0 {
+			cut = 0 // the follower was stopped between the snapshot and the first byte of the log
+		}
+		c.fill(F, fsnap, off, snapN, cut)
 		c.stopWriter(F)
 	case "equal":
 		c.fill(F, true, off, snapN, logLen)
@@ -341,6 +353,9 @@ func runC16(r *Run, stratum string) *Violation {
 		var acts []pipeAction
 		for _, s := range hub.Streams {
 			s := s
+			if s.RequestPending() {
+				acts = append(acts, pipeAction{"deliver-request " + s.String(), 10, func() { s.DeliverRequest() }})
+			}
 			if s.Pending() > 0 {
 				acts = append(acts, pipeAction{"deliver " + s.String(), 10, func() { s.Deliver() }})
 				if breaks < maxBreaks {
@@ -363,8 +378,16 @@ func runC16(r *Run, stratum string) *Violation {
 					r.W.Fault("leader_full_resync")
 					c.stopWriter(L)
 					off2 := L.right + int64(1+sc.Choose("resyncgap", 3000))
-					c.fill(L, true, off2, int64(20+sc.Choose("resyncsnap", 300)), int64(1+sc.Choose("resynclog", 400)))
-					r.Logf("LEADER full resync: snapshot at %d, log to %d", off2, L.right)
+					// (or, without a snapshot: the leader's cache is restarted at a later position, as RedisInput.syncMeta
+					// does when the output is ahead of the cache)
+					withSnap := sc.Choose("resyncwithsnap", 3) != 0
+					if !withSnap {
+						if err := L.ch.DelRunId(L.id); err != nil {
+							Inconc("leader DelRunId: %v", err)
+						}
+					}
+					c.fill(L, withSnap, off2, int64(20+sc.Choose("resyncsnap", 300)), int64(1+sc.Choose("resynclog", 400)))
+					r.Logf("LEADER cache restarted at %d (snapshot: %v), log to %d", off2, withSnap, L.right)
 				}})
 				acts = append(acts, pipeAction{"leader-idswitch", 1, func() {
 					// the leader's source failed over and answered +CONTINUE: same bytes, new replication id, old one second
@@ -417,6 +440,11 @@ func runC16(r *Run, stratum string) *Violation {
 		}
 		progressed := false
 		for _, s := range hub.Streams {
+			if s.RequestPending() {
+				s.DeliverRequest()
+				progressed = true
+				r.Settle()
+			}
 			for s.Pending() > 0 {
 				s.Deliver()
 				progressed = true
